@@ -23,6 +23,9 @@ use serde_json::{json, Value};
 pub struct CaseReport {
     pub nontrivial: bool,
     pub classes: Vec<&'static str>,
+    /// when set, distinctness of non-trivial cases is judged by this key (e.g. hash of the
+    /// executed trace) instead of the hash of the serialised case
+    pub distinct_key: Option<u64>,
 }
 
 impl CaseReport {
@@ -251,6 +254,12 @@ pub fn install_panic_hook() {
     }));
 }
 
+/// Location of the most recent panic caught on this thread (for harnesses with their own
+/// `catch_unwind`), consumed on read.
+pub fn take_last_panic_location() -> Option<String> {
+    LAST_PANIC.with(|p| p.borrow_mut().take()).map(|(loc, _)| loc)
+}
+
 /// Run `f`, converting a panic into `Err((location, message))`.
 pub fn catch<R>(f: impl FnOnce() -> R) -> Result<R, (String, String)> {
     let was = QUIET.with(|q| q.replace(true));
@@ -374,6 +383,7 @@ impl Ctx {
         match res {
             Ok(rep) => {
                 if rep.nontrivial {
+                    let hash = rep.distinct_key.unwrap_or(hash);
                     if st.nontrivial.len() < MAX_HASHES_PER_WORKER {
                         st.nontrivial.insert(hash);
                     } else {
